@@ -23,6 +23,7 @@ from ..util import MUTATORS, base_of, body_walk, src, store_targets
 
 TABLE = "ML_ALLOWLIST"
 SHARED, FRESH = "shared", "fresh"
+TABLE_INNER_SHARED: List[str] = []  # names bound to more than one key of the table literal (filled by run())
 
 
 def copy_depth(e: ast.AST, aliases: Dict[str, Tuple[str, str]]) -> Optional[Tuple[str, str]]:
@@ -39,7 +40,9 @@ def copy_depth(e: ast.AST, aliases: Dict[str, Tuple[str, str]]) -> Optional[Tupl
         if fn in ("copy.deepcopy", "deepcopy") and e.args:
             inner = copy_depth(e.args[0], aliases)
             if inner is not None:
-                return (FRESH, FRESH)
+                # deepcopy keeps the sharing structure of what it copies: two keys bound to one inner dict in the table
+                # are bound to one (new) inner dict in the copy
+                return (FRESH, "aliased-inner" if TABLE_INNER_SHARED and inner[1] != FRESH else FRESH)
         if isinstance(e.func, ast.Attribute) and e.func.attr == "copy" and not e.args:
             inner = copy_depth(e.func.value, aliases)
             if inner is not None:
@@ -208,6 +211,15 @@ def run(rep: Report, tier: str):
         raise AnalysisError("fickling.ml.ML_ALLOWLIST dict literal not found")
     table = ml.assigns[TABLE][0]
     inner_n = sum(1 for v in table.values if isinstance(v, ast.Dict))
+    TABLE_INNER_SHARED.clear()
+    seen_names: Dict[str, int] = {}
+    for v in table.values:
+        d = dotted(v)
+        if d:
+            seen_names[d] = seen_names.get(d, 0) + 1
+    TABLE_INNER_SHARED.extend(sorted(k for k, n in seen_names.items() if n > 1))
+    if TABLE_INNER_SHARED:
+        rep.info(f"the table binds one inner dict object to several module keys: {TABLE_INNER_SHARED}")
     rep.units = {"ML_ALLOWLIST_modules": len(table.keys), "inner_dict_literals": inner_n}
     if len(ml.assigns[TABLE]) != 1:
         rep.bad("C11.no-write-through", "fickling.ml.ML_ALLOWLIST", "table-reassigned", "ML_ALLOWLIST is assigned more than once at module level", "fickling/ml.py", 1)
@@ -274,6 +286,9 @@ def run(rep: Report, tier: str):
                     for depth, alias, node, text in writes_in(f, loc):
                         n_writes += 1
                         share = loc[alias][0] if depth == "outer" else loc[alias][1]
+                        if share == "aliased-inner":
+                            rep.bad("C11.no-write-through", f.qualname, f"{depth}-write-to-aliased-inner:{alias}", f"`{text}` writes one inner dict of `{alias}`, a deepcopy of a table in which several module keys are bound to the same inner dict object ({TABLE_INNER_SHARED}): deepcopy preserves that sharing, so an addition to one of those modules is also in force for the others, which were never passed", f.file, node.lineno)
+                            continue
                         if share in (SHARED, "class-shared"):
                             what = "the built-in ML_ALLOWLIST" if share == SHARED else "an allowlist object shared by all unpickler instances (class attribute)"
                             how = f"alias created with a {'shallow' if loc[alias][0] == FRESH else 'non-'}copy"
@@ -325,13 +340,25 @@ def run(rep: Report, tier: str):
                             rep.bad("C11.no-accumulator", f.qualname, f"module-object-write:{d}", f"`{src(n)}` writes into the module-level object `{d}`", f.file, n.lineno)
                         if d and (root == "cls" or d.startswith("self.__class__") or (f.cls is not None and root == f.cls.name) or d.startswith("type(self)")):
                             rep.bad("C11.no-accumulator", f.qualname, f"class-attr-write:{d}", f"`{src(n)}` writes a class attribute: shared by every unpickler / activation", f.file, n.lineno)
-                        if f.cls is not None and d.startswith("self.") and isinstance(t, ast.Subscript):
+                        aug_inplace = isinstance(n, ast.AugAssign) and isinstance(t, ast.Attribute) and d.count(".") == 1
+                        if f.cls is not None and d.startswith("self.") and (isinstance(t, ast.Subscript) or aug_inplace):
                             attr = d.split(".")[1]
                             found = repo.find_attr(f.cls, attr)
                             inst_assigned = any(
                                 isinstance(x, (ast.Assign, ast.AnnAssign)) and any(dotted(tt) == f"self.{attr}" for tt in store_targets(x))
                                 for fs in f.cls.methods.values() for ff in fs for x in body_walk(ff.node)
                             )
+                            if aug_inplace:
+                                # `self.x += [...]` on a class-level list extends the class's own list in place (and
+                                # then binds the same object on the instance): the plain Assign forms that would make it
+                                # per-instance must come from somewhere else than this very statement
+                                inst_assigned = any(
+                                    isinstance(x, (ast.Assign, ast.AnnAssign)) and any(dotted(tt) == f"self.{attr}" for tt in store_targets(x))
+                                    for fs in f.cls.methods.values() for ff in fs for x in body_walk(ff.node)
+                                )
+                                mutable_cls = found is not None and (isinstance(found[1], (ast.List, ast.Dict, ast.Set)) or (isinstance(found[1], ast.Call) and dotted(found[1].func) in ("list", "dict", "set", "collections.defaultdict", "defaultdict")))
+                                if not mutable_cls:
+                                    continue
                             if found is not None and not inst_assigned:
                                 rep.bad("C11.no-accumulator", f.qualname, f"class-attr-mutation:self.{attr}", f"`{src(n)}` mutates `{attr}`, a class-level object reached through self: shared by every instance", f.file, n.lineno)
                 if isinstance(n, ast.Call) and isinstance(n.func, ast.Attribute) and n.func.attr in MUTATORS:
